@@ -18,6 +18,11 @@ def run(tier, seed):
     extio.install(eng)
     error_estimator.install(eng)
     verify_contracts(eng, [c for c in error_estimator.contracts if c.setup], chk)
+    eng2 = common.new_engine(error_estimator.accumulation_contracts, "C09")
+    arrays.install(eng2)
+    extio.install(eng2)
+    error_estimator.install_accumulation(eng2)
+    verify_contracts(eng2, [c for c in error_estimator.accumulation_contracts if c.setup], chk)
     from vlib import smt
     smt.close_pool()
     try:
